@@ -202,9 +202,62 @@ Definition c17_enum (a : list Z) : list Z :=
   | _ => [-2]
   end.
 
+(* one random maximal schedule (64-bit LCG; stays on the current thread with probability
+   3/4, always once [maxpre] preemptions are used up) *)
+Definition lcg (s : Z) : Z := (s * 6364136223846793005 + 1442695040888963407) mod 18446744073709551616.
+Definition pick (s : Z) (n : nat) : nat := nz ((s / 8589934592) mod (Z.max 1 (zn n))).
+
+Fixpoint rwalk (fuel : nat) (st : state) (last : option nat) (npre maxpre : nat) (seed : Z)
+               (racc : list label) : list label :=
+  match fuel with
+  | O => rev racc
+  | S f =>
+      let en := enabled st in
+      match en with
+      | [] => rev racc
+      | _ =>
+          let s1 := lcg seed in
+          let s2 := lcg s1 in
+          let same := match last with
+                      | Some t => filter (fun l => Nat.eqb (thread_of l) t) en
+                      | None => []
+                      end in
+          let stay := match same with
+                      | [] => false
+                      | _ => Nat.leb maxpre npre || negb (Nat.eqb (pick s1 4) 0)
+                      end in
+          let pool := if stay then same else en in
+          match nth_error pool (pick s2 (List.length pool)) with
+          | Some l =>
+              let th := thread_of l in
+              let cost := match last, same with
+                          | Some t, _ :: _ => if Nat.eqb t th then O else 1%nat
+                          | _, _ => O
+                          end in
+              match step st l with
+              | Some st' => rwalk f st' (Some th) (npre + cost)%nat maxpre s2 (l :: racc)
+              | None => rev racc
+              end
+          | None => rev racc
+          end
+      end
+  end.
+
+(* [seed; maxpre; njobs; tmos..; nsd; waits..] -> schedule triples *)
+Definition c17_random (a : list Z) : list Z :=
+  match a with
+  | seed :: maxpre :: r =>
+      match parse r with
+      | Some (st, _) => flat_map enc_label (rwalk (S (rank st)) st None O (nz maxpre) seed [])
+      | None => [-2]
+      end
+  | _ => [-2]
+  end.
+
 Definition table : list (string * (list Z -> list Z)) :=
   [ ("c17_trace"%string, c17_trace);
     ("c17_enabled"%string, c17_enabled);
-    ("c17_enum"%string, c17_enum) ].
+    ("c17_enum"%string, c17_enum);
+    ("c17_random"%string, c17_random) ].
 
 Extraction "_build/C17/entries.ml" table.
